@@ -33,10 +33,12 @@ TDie   == /\ Ev("die")
 \* rejected trace is an instance of the finding, never in the configuration that decides conformance.
 TDieTornPartial ==
           /\ KF_TornBatch /\ Ev("die") /\ "torn" \in DOMAIN Trace[l] /\ Trace[l].torn
-          /\ dUp /\ dAcked < Len(dIssued) /\ Len(dIssued[Len(dIssued)]) >= 2
-          /\ \E j \in 1..(Len(dIssued[Len(dIssued)]) - 1) :
-                dIssued' = Append(SubSeq(dIssued, 1, dAcked), SubSeq(dIssued[Len(dIssued)], 1, j))
-          /\ dAcked' = dAcked + 1
+          /\ dUp
+          /\ \E n \in (IF sync = "imm" THEN dAcked ELSE 0)..(Len(dIssued) - 1) :      \* operations 1..n survive whole,
+               /\ Len(dIssued[n + 1]) >= 2                                            \* the next one is a batch
+               /\ \E j \in 1..(Len(dIssued[n + 1]) - 1) :                             \* of which only the first j records survive,
+                    dIssued' = Append(SubSeq(dIssued, 1, n), SubSeq(dIssued[n + 1], 1, j))
+               /\ dAcked' = n + 1                                                     \* and nothing behind it
           /\ dUp' = FALSE /\ UNCHANGED sync
 TClose == Ev("close") /\ DClose /\ UNCHANGED sync
 TOpen  == Ev("open") /\ DOpen /\ UNCHANGED sync
